@@ -297,6 +297,65 @@ func (st *State) callExtern(g *G, fr *Frame, name string, fn *ssa.Function, args
 	case "strconv.ParseUint":
 		return st.parseUint(st.strArg(args[0]), args), false
 
+	case "unicode/utf8.RuneStart":
+		b := args[0].(*Term)
+		return Not(bvEq(Arith("&", b, BV(8, 0xc0), false), BV(8, 0x80))), false
+	case "unicode/utf8.ValidString":
+		return st.intrinsicValidUTF8(st.strArg(args[0])), false
+	case "strings.Count":
+		sv, nd := st.strArg(args[0]), st.strArg(args[1])
+		if sv.Const && nd.Const {
+			return BV(64, uint64(strings.Count(sv.Str, nd.Str))), false
+		}
+		if nd.Const && len(nd.Str) == 1 && sv.BS != nil {
+			n := BV(64, 0)
+			for i, bt := range sv.BS.B {
+				hit := And(Cmp("<", idx64(i), sv.BS.Len, false), bvEq(bt, BV(8, uint64(nd.Str[0]))))
+				n = st.name(Ite(hit, Arith("+", n, BV(64, 1), false), n), "cnt")
+			}
+			return n, false
+		}
+		st.fail("unsupported", "strings.Count form")
+		return nil, false
+	case "strings.Index":
+		sv, nd := st.strArg(args[0]), st.strArg(args[1])
+		if sv.Const && nd.Const {
+			return BV(64, uint64(int64(strings.Index(sv.Str, nd.Str)))), false
+		}
+		if nd.Const && len(nd.Str) == 1 && (sv.BS != nil) {
+			i, found := bsIndexByte(sv.BS, nd.Str[0])
+			return Ite(found, i, BV(64, ^uint64(0))), false
+		}
+		st.fail("unsupported", "strings.Index form")
+		return nil, false
+	case "strings.SplitN":
+		// only n == 2 with a single-byte separator: split at the first occurrence
+		n := args[2].(*Term)
+		sv, sep := st.strArg(args[0]), st.strArg(args[1])
+		if n.Const && n.U == 2 && sep.Const && len(sep.Str) == 1 {
+			strT := types.Typ[types.String]
+			if sv.Const {
+				parts := strings.SplitN(sv.Str, sep.Str, 2)
+				var vs []Val
+				for _, p := range parts {
+					vs = append(vs, Str(p))
+				}
+				return st.mkSlice(strT, vs, 0), false
+			}
+			if st.branch(StrContains(sv, sep)) {
+				var i *Term
+				if sv.BS != nil {
+					i, _ = bsIndexByte(sv.BS, sep.Str[0])
+				} else {
+					i = fromInt(64, "(str.indexof "+sv.S+" "+sep.S+" 0)")
+				}
+				return st.mkSlice(strT, []Val{StrSub(sv, BV(64, 0), i), StrSub(sv, Arith("+", i, BV(64, 1), true), StrLen(sv))}, 0), false
+			}
+			return st.mkSlice(strT, []Val{sv}, 0), false
+		}
+		st.fail("unsupported", "strings.SplitN form")
+		return nil, false
+
 	// ---- json ----
 	case "encoding/json.Unmarshal":
 		return st.jsonUnmarshal(args), false
@@ -544,6 +603,15 @@ func (st *State) strSplit(s, sep *Term) Val {
 
 // bsDecimal: decimal text of an unsigned value known to be < 10^maxDigits (byte-vector mode).
 func (st *State) bsDecimal(t *Term, maxDigits int) *Term {
+	// the caller guarantees t < 10^maxDigits: the narrowest exact width is much cheaper to bit-blast
+	switch {
+	case maxDigits <= 2:
+		t = Resize(t, 8, false)
+	case maxDigits <= 4:
+		t = Resize(t, 16, false)
+	default:
+		t = Resize(t, 32, false)
+	}
 	w := t.Sort.W
 	// digits d[k] = (t / 10^k) % 10, number of digits n = 1 + #(k>=1 with t >= 10^k)
 	pow := uint64(1)
@@ -579,6 +647,12 @@ func (st *State) intToStr(t *Term, sg bool) *Term {
 			st.eng.Res.Incomplete = append(st.eng.Res.Incomplete, "integer formatting: value >= 10^6 outside the stated bound")
 			st.fail("unwind", "itoa bound")
 		}
+		if st.branch(Cmp("<", t, BV(t.Sort.W, 100), false)) {
+			return st.bsDecimal(t, 2)
+		}
+		if st.branch(Cmp("<", t, BV(t.Sort.W, 10000), false)) {
+			return st.bsDecimal(t, 4)
+		}
 		return st.bsDecimal(t, 6)
 	}
 	// only non-negative values are converted exactly; negative ones get "-" prefix
@@ -612,14 +686,15 @@ func (st *State) parseUint(s *Term, args []Val) Val {
 		b := s.BS
 		okLen := And(Cmp(">=", b.Len, idx64(1), false), Cmp("<=", b.Len, idx64(9), false))
 		allDig := True
-		val := BV(64, 0)
+		val := BV(32, 0) // <= 9 digits fit into 30 bits
 		for i := 0; i < len(b.B) && i < 9; i++ {
 			in := Cmp("<", idx64(i), b.Len, false)
 			isD := And(Cmp(">=", b.B[i], BV(8, '0'), false), Cmp("<=", b.B[i], BV(8, '9'), false))
 			allDig = And(allDig, Or(Not(in), isD))
-			dv := Resize(Arith("-", b.B[i], BV(8, '0'), false), 64, false)
-			val = Ite(in, Arith("+", Arith("*", val, BV(64, 10), false), dv, false), val)
+			dv := Resize(Arith("-", b.B[i], BV(8, '0'), false), 32, false)
+			val = st.name(Ite(in, Arith("+", Arith("*", val, BV(32, 10), false), dv, false), val), "puv")
 		}
+		val = Resize(val, 64, false)
 		if len(b.B) > 9 {
 			long := Cmp(">", b.Len, idx64(9), false)
 			if st.branch(long) {
